@@ -108,6 +108,20 @@ static void case_bearing() {
   else { sx::f64 kk = sx::numeric(k); sx::check_true(::fabs(kk - ::round(kk)) < (sx::f64)1e-9, "bearing(b,a) = bearing(a,b) + pi modulo 2 pi", ""); }
   sx::reached("geo-bearing");
 }
+static void case_bearing_near() {      // points between the documented cut (1e-6 m) and everyday distances
+  using namespace GNU_gama::local;
+  Real dx = sx::input("dx"), dy = sx::input("dy");
+  sx::assume_range(dx, mpq_class(-1, 500), mpq_class(1, 500)); sx::assume_range(dy, mpq_class(-1, 500), mpq_class(1, 500));
+  sx::assume_le(sx::rat(1, 250000000000LL), dx * dx + dy * dy);                 // at least 2e-6 m apart
+  Real ax = sx::rat(1000), ay = sx::rat(2000);
+  Real b1, d1, b2, d2; bearing_distance(ay, ax, ay + dy, ax + dx, b1, d1); bearing_distance(ay + dy, ax + dx, ay, ax, b2, d2);
+  sx::check_eq(d1 * d1, dx * dx + dy * dy, "near points: distance^2 = dx^2 + dy^2"); sx::check_eq(d1, d2, "near points: distance symmetric");
+  sx::check_eq(d1 * sin(b1), dy, "near points: d sin(bearing) = dy"); sx::check_eq(d1 * cos(b1), dx, "near points: d cos(bearing) = dx");
+  Real k = (b2 - b1 - Real(M_PI)) / Real(2 * M_PI); mpq_class q;
+  if (sx::symbolic_mode()) sx::check_true(sx::is_rational(k, &q) && q.get_den() == 1, "near points: bearing(b,a) = bearing(a,b) + pi modulo 2 pi", sx::show(b2 - b1));
+  else { sx::f64 kk = sx::numeric(k); sx::check_true(::fabs(kk - ::round(kk)) < (sx::f64)1e-9, "near points: bearing(b,a) = bearing(a,b) + pi modulo 2 pi", ""); }
+  sx::reached("geo-near");
+}
 static void case_bearing_cut() {
   using namespace GNU_gama::local;
   Real e = sx::input("e"); sx::assume_range(e, 0, mpq_class(1, 2000000));      // closer than the 1e-6 cut
@@ -125,6 +139,7 @@ static void gen_cases(const sx::Options& opt, std::vector<sx::Case>& cases) {
   for (int w = 0; w < 5; w++) cases.push_back({"geo/dms/" + std::to_string(w), "dms<->rad", [w] { case_dms(w); }});
   cases.push_back({"geo/deg2gon-literals", "angle parsing", [] { case_deg2gon_literals(); }});
   cases.push_back({"geo/bearing", "bearing/distance", [] { case_bearing(); }});
+  cases.push_back({"geo/bearing-near", "bearing/distance", [] { case_bearing_near(); }});
   cases.push_back({"geo/bearing-cut", "bearing/distance", [] { case_bearing_cut(); }});
 }
 int main(int argc, char** argv) { return sx::run_main(argc, argv, "geo", gen_cases); }
